@@ -12,9 +12,9 @@ from pyphysim.channels import fading_generators as FG
 
 ID = "C14"
 RULE = ("histories of 1-60 generate(n)/skip(n) requests on one generator "
-        "(n in {1,2,3,7,100,1e3,1e5}, skips up to 1e10 samples with cumulative "
+        "(n in {1,2,3,7,100,1e3,1e5} or log-uniform 1..2e5, skips up to 1e10 samples with cumulative "
         "positions 1e3..1e10 each forced) x Ts in {1e-9,3.25e-8,1e-4,1e-3,0.37,"
-        "1} x Fd in {0,5,100,0.3/Ts} x L in 1..20 x shapes None / int / (2,) / "
+        "1} x Fd in {0,5,100,0.3/Ts, log-uniform 1e-3..0.3/Ts} x L in 1..20 x shapes None / int / (2,) / "
         "(3,2).  The monitor keeps an integer sample counter and evaluates the "
         "closed-form Jakes sum in longdouble with the phases recorded from the "
         "RandomState the generator was given; a black-box twin (same seed, one "
@@ -83,8 +83,9 @@ def shape_tuple(shape):
 def case_history(ctx, rng, idx):
     shape = SHAPES[idx % len(SHAPES)]
     Ts = TS[(idx // len(SHAPES)) % len(TS)]
-    fdk = (idx // (len(SHAPES) * len(TS))) % 4
-    Fd = [0.0, 5.0, 100.0, 0.3 / Ts][fdk]
+    fdk = (idx // (len(SHAPES) * len(TS))) % 5
+    Fd = [0.0, 5.0, 100.0, 0.3 / Ts,
+          float(10.0 ** rng.uniform(-3, math.log10(0.3 / Ts)))][fdk]   # 4: log-uniform
     if Fd * Ts > 0.5:
         Fd = 0.3 / Ts
     L = int(rng.integers(1, 21))
@@ -128,6 +129,8 @@ def case_history(ctx, rng, idx):
             k += nskip
             hist.append("skip")
         n = NS[int(rng.integers(0, len(NS)))]
+        if rng.random() < 0.35:
+            n = int(10.0 ** rng.uniform(0, 5.3))      # arbitrary, not round, sizes
         while n * L * cells > (4e6 if ctx.tier == "thorough" else 3e5):
             n //= 10
         n = max(n, 1)
